@@ -571,14 +571,16 @@ func (c *Client) toOffline() {
 	verifYield("offline.enter")
 	select {
 	case _, ok := <-c.writeSem:
+		c.readConn.Close()
 		if !ok {
+			c.dropReadConn()
 			return // ErrClosed
 		}
-		c.readConn.Close()
 	default:
 		c.readConn.Close() // interrupt write
 		_, ok := <-c.writeSem
 		if !ok {
+			c.dropReadConn()
 			return // ErrClosed
 		}
 	}
@@ -586,10 +588,7 @@ func (c *Client) toOffline() {
 	clearSignalChan(c.offlineSig)
 	c.writeSem <- connPending
 
-	c.readConn = nil
-	c.bigMessage = nil // lost
-	c.bufr = nil
-	c.peek = nil // applied to prevous r, if any
+	c.dropReadConn()
 	verifYield("offline.break")
 
 	select {
@@ -600,6 +599,15 @@ func (c *Client) toOffline() {
 	}
 
 	c.unorderedTxs.breakAll()
+}
+
+// DropReadConn makes the read routine forget its connection, such that the next
+// ReadSlices goes through connect, which reports ErrClosed once applicable.
+func (c *Client) dropReadConn() {
+	c.readConn = nil
+	c.bigMessage = nil // lost
+	c.bufr = nil
+	c.peek = nil // applied to prevous r, if any
 }
 
 // LockWrite acquires the write semaphore.
